@@ -62,6 +62,13 @@ def run(ck: Checker, prog: Program, tier: str):
     from . import c12
     with ck.borrow(c12, "C19.R3+"):
         ck.guard(c12._writers_truncate, ck, prog)
+    # the figure the worker draws before it writes must leave the result as process() returned it (rules of C20); the settings
+    # objects the worker copies and loads behave as C15 states
+    from . import c20, c15
+    with ck.borrow(c20, "C19.R2a+"):
+        ck.guard(c20._read_only, ck, prog)
+    with ck.borrow(c15, "C19.R3+"):
+        ck.guard(c15.run, ck, prog, tier)
     # ---------------------------------------------------------------- R1
     shared = [e for e in s.effects if (e.origin[0] == "P" and e.origin[1] in (1, 2, 3)) or e.origin[0] == "G"]
     if not shared:
